@@ -12,6 +12,7 @@ import Pyiga.Proofs.GeoLists
 import Pyiga.Proofs.Arcs
 import Pyiga.Proofs.Compose
 import Mathlib.Tactic.NormNum
+import Mathlib.Data.List.Induction
 import Mathlib.Algebra.Field.Rat
 
 namespace Pyiga.Props.C07
@@ -1598,6 +1599,124 @@ unit-circle arc `x² + y² = w²` (premultiplied) becomes a point with `(rx)² +
 theorem disk_scale_radius (r x y w : K) (h : x ^ 2 + y ^ 2 = w ^ 2) :
     (r * x) ^ 2 + (r * y) ^ 2 = r ^ 2 * w ^ 2 := by
   linear_combination r ^ 2 * h
+
+
+
+/-- the segment of one axis of `identity(extents)` -/
+def idSeg (e : K × K) : Func K := lineSegment [e.1] [e.2] [0, 1]
+
+theorem identityGeo_single (e : K × K) : identityGeo [e] = idSeg e := rfl
+
+theorem identityGeo_snoc (e0 : K × K) (exts : List (K × K)) (e : K × K) :
+    identityGeo (e0 :: exts ++ [e]) = bspTensor (identityGeo (e0 :: exts)) (idSeg e) := by
+  unfold identityGeo reduceTensor
+  simp only [List.map_cons, List.cons_append, List.map_append, List.map_nil, List.foldl_append,
+    List.foldl_cons, List.foldl_nil]
+  rfl
+
+theorem identityGeo_shape (e0 : K × K) : ∀ (exts : List (K × K)),
+    (identityGeo (e0 :: exts)).dims = List.replicate (exts.length + 1) 2 ∧
+    (identityGeo (e0 :: exts)).ncomp = exts.length + 1 := by
+  intro exts
+  induction exts using List.reverseRecOn with
+  | nil => simp [identityGeo_single, idSeg, lineSegment, Func.ncomp, Index.prod]
+  | append_singleton exts e ih =>
+    obtain ⟨h1, h2⟩ := ih
+    rw [← List.cons_append, identityGeo_snoc]
+    constructor
+    · simp only [bspTensor, h1, idSeg, lineSegment, List.length_append, List.length_cons, List.length_nil]
+      rw [List.replicate_succ' (n := exts.length + 1)]
+    · simp only [bspTensor, Func.ncomp, Index.prod, List.foldr_cons, List.foldr_nil, Nat.mul_one]
+      have : (idSeg e : Func K).ncomp = 1 := by simp [idSeg, lineSegment, Func.ncomp, Index.prod]
+      simp only [Func.ncomp, Index.prod] at h2 this
+      rw [h2, this]
+      simp
+
+/-- **identity(extents), any number of axes.**  With linear B-splines on each axis that sum to one
+and have linear precision with parameter `tp i y` (`Σ_k N_k(y)·[0,1]_k = tp`; on
+`make_knots(1, a, b, 1)`: `tp = (y-a)/(b-a)`), component `b` of `identity(extents)` at the node `ys`
+is `(1-tp)·a + tp·b'` for the extent `(a, b')` of coefficient axis `d-1-b` — by `identity_axis` the
+coordinate itself: the identity map in xyz order. -/
+theorem identity_model {X : Type} [Inhabited X] (B : Nat → X → Info K) (tp : Nat → X → K)
+    (hpu : ∀ i y, sumTo 2 ((B i y).dense 0) = 1)
+    (hlin : ∀ i y, sumTo 2 (fun k => (B i y).dense 0 k * ([0, 1] : List K).getD k 0) = tp i y)
+    (e0 : K × K) : ∀ (exts : List (K × K)) (ys : List X), ys.length = exts.length + 1 → ∀ b, b ≤ exts.length →
+      (identityGeo (e0 :: exts)).toSpl.gridVal B ys b
+        = (1 - tp (exts.length - b) (ys.getD (exts.length - b) default)) * ((e0 :: exts).getD (exts.length - b) (0, 0)).1
+          + tp (exts.length - b) (ys.getD (exts.length - b) default) * ((e0 :: exts).getD (exts.length - b) (0, 0)).2 := by
+  intro exts
+  induction exts using List.reverseRecOn with
+  | nil =>
+    intro ys hl b hb
+    obtain ⟨y, rfl⟩ : ∃ y, ys = [y] := by
+      match ys, hl with
+      | [y], _ => exact ⟨y, rfl⟩
+    have hb0 : b = 0 := by simpa using hb
+    subst hb0
+    show contract (idSeg e0).at (idSeg e0 : Func K).ncomp 0
+      (rows B 0 (idSeg e0 : Func K).dims [y] (List.replicate (idSeg e0 : Func K).dims.length 0)) 0 = _
+    have hnc : (idSeg e0 : Func K).ncomp = 1 := by simp [idSeg, lineSegment, Func.ncomp, Index.prod]
+    have hdims : (idSeg e0 : Func K).dims = [2] := rfl
+    rw [hnc, hdims]
+    simp only [List.length_cons, List.length_nil, List.replicate, rows]
+    have := line_segment_law [e0.1] [e0.2] [0, 1] ((B 0 y).dense 0) (tp 0 y) 0 (by simp) rfl (hpu 0 y) (hlin 0 y)
+    simp only [List.length_cons, List.length_nil] at this
+    unfold idSeg
+    rw [this]
+    simp
+  | append_singleton exts e ih =>
+    intro ys hl b hb
+    obtain ⟨ys1, y, rfl⟩ : ∃ ys1 y, ys = ys1 ++ [y] := by
+      rcases List.eq_nil_or_concat ys with h | ⟨l, a, h⟩
+      · rw [h] at hl; simp at hl
+      · exact ⟨l, a, by rw [h, List.concat_eq_append]⟩
+    have hlen : (exts ++ [e]).length = exts.length + 1 := by simp
+    have hl1 : ys1.length = exts.length + 1 := by
+      simp only [List.length_append, List.length_cons, List.length_nil] at hl; omega
+    obtain ⟨hdims, hncomp⟩ := identityGeo_shape e0 exts
+    have hLnc : (idSeg e : Func K).ncomp = 1 := by simp [idSeg, lineSegment, Func.ncomp, Index.prod]
+    have hLdims : (idSeg e : Func K).dims = [2] := rfl
+    have hG1len : (identityGeo (e0 :: exts)).dims.length = exts.length + 1 := by rw [hdims]; simp
+    rw [← List.cons_append, identityGeo_snoc, hlen]
+    rw [hlen] at hb
+    have key := tensor_product_model (identityGeo (e0 :: exts)) (idSeg e) B ys1 [y] b
+      (by rw [hG1len]; exact hl1) (by rw [hLdims]; rfl) (by rw [hncomp, hLnc]; omega)
+      (by rw [hdims, List.length_replicate]; exact pu_rows_replicate B 2 hpu (exts.length + 1) 0 ys1)
+      (by
+        rw [hLdims]
+        intro p hp
+        simp only [List.length_cons, List.length_nil, List.replicate, rows, List.mem_singleton] at hp
+        subst hp
+        exact hpu _ y)
+    rw [key, hLnc]
+    by_cases hb0 : b < 1
+    · have : b = 0 := by omega
+      subst this
+      rw [if_pos hb0, hLdims, hG1len]
+      simp only [List.length_cons, List.length_nil, List.replicate, rows]
+      have := line_segment_law [e.1] [e.2] [0, 1] ((B (exts.length + 1) y).dense 0) (tp (exts.length + 1) y) 0
+        (by simp) rfl (hpu _ y) (hlin _ y)
+      simp only [List.length_cons, List.length_nil] at this
+      unfold idSeg
+      rw [this]
+      have hget : (ys1 ++ [y]).getD (exts.length + 1 - 0) default = y := by
+        rw [Nat.sub_zero, List.getD_eq_getElem?_getD, List.getElem?_append_right (by omega), hl1]
+        simp
+      have hge : ((e0 :: exts) ++ [e]).getD (exts.length + 1 - 0) (0, 0) = e := by
+        rw [Nat.sub_zero, List.getD_eq_getElem?_getD, List.getElem?_append_right (by simp)]
+        simp
+      rw [hget, hge]
+      simp
+    · rw [if_neg hb0]
+      have ih' := ih ys1 hl1 (b - 1) (by omega)
+      rw [ih']
+      have e1 : exts.length - (b - 1) = exts.length + 1 - b := by omega
+      rw [e1]
+      have hy : (ys1 ++ [y]).getD (exts.length + 1 - b) default = ys1.getD (exts.length + 1 - b) default := by
+        rw [List.getD_eq_getElem?_getD, List.getD_eq_getElem?_getD, List.getElem?_append_left (by omega)]
+      have he : ((e0 :: exts) ++ [e]).getD (exts.length + 1 - b) (0, 0) = (e0 :: exts).getD (exts.length + 1 - b) (0, 0) := by
+        rw [List.getD_eq_getElem?_getD, List.getD_eq_getElem?_getD, List.getElem?_append_left (by simp; omega)]
+      rw [hy, he]
 
 
 /-! ## 4. circular arcs lie on exact circles -/
